@@ -7,9 +7,9 @@ SPEC = {
             "identifiers 1..n via Share or distinct arbitrary non-zero scalars via ShareWithID, coefficient stream, up to 3 subsets S in drawn order, up to 3 altered shares) drawn by rapid. "
             "non-trivial = a recovery whose subset is not the prefix {1..t+1} in order, or has more than t+1 shares, or uses non-sequential identifiers, or is an unqualified set (|S| <= t) that was refused, "
             "or an altered (value/identifier) share that is off the polynomial and was rejected. "
-            "threshold RSA: case = (pool key, l in 2..30, k in 1..l, cached/uncached Deal, blinded/unblinded (parallel or not) Sign, PKCS#1 v1.5 or PSS padder with hash and salt mode, message, player subset of size >= k in drawn order); "
-            "plus every k-subset of every (l,k) with 2 <= l <= 6 (119 subsets, ascending and one rotated order). "
-            "non-trivial = the subset is not the first k players in order, or has more than k players, or is a (k-1)-subset that did not yield a verifying signature; "
+            "threshold RSA: case = (pool key, l in 2..30, k in 1..l, cached/uncached Deal, blinded/unblinded (parallel or not) Sign, PKCS#1 v1.5 or PSS padder with hash and salt mode, message, player subset of size >= k in drawn order, blinding chosen per signature), followed by a second message signed with the same KeyShare objects (other padding/blinding, in one third of the cases after a MarshalBinary/UnmarshalBinary round trip of the participating shares); "
+            "plus every k-subset of every (l,k) with 2 <= l <= 6 (119 subsets, ascending and one rotated order, and again for a second message on the same key shares). "
+            "non-trivial = the subset is not the first k players in order, or has more than k players, or is a second-message round on key shares that have already signed, or is a (k-1)-subset that did not yield a verifying signature; "
             "distinct by FNV-64 of (sub-check, group or key, parameters, subset and order, alteration, secret or message)",
     "assumptions": COMMON_ASSUME + [
         "group orders are taken from crypto/elliptic and RFC 9496; the reference interpolation is math/big Lagrange evaluation",
@@ -26,7 +26,7 @@ MANIFEST = {
             "an altered share (value, identifier, identifier 0, swapped, other share's parts) must be accepted by Verify exactly when it still lies on the polynomial and has a non-zero identifier, "
             "Recover must return the secret for every drawn subset of more than t shares in any order and an error (no panic) for every subset of at most t shares. "
             "Threshold RSA: for drawn (key, l, k, cache, blinding, padding, hash, salt mode, message) the partial signatures of any drawn subset of >= k distinct players in any order must combine to a signature that "
-            "crypto/rsa verifies (and that equals crypto/rsa.SignPKCS1v15 byte for byte for PKCS#1 v1.5); k-1 players must not yield a verifying signature; all k-subsets are enumerated for l <= 6. "
+            "crypto/rsa verifies (and that equals crypto/rsa.SignPKCS1v15 byte for byte for PKCS#1 v1.5); k-1 players must not yield a verifying signature; the same key-share objects then sign a second message (optionally after a marshal round trip) and must combine again; all k-subsets are enumerated for l <= 6. "
             "Exploration is the right level: the quantifier ranges over parameters and subsets, each case has an exact oracle, and the defect found (inexact integer arithmetic) shows up only off the tested prefix subsets.",
     "note": "trusts math/big, crypto/elliptic group orders and crypto/rsa verification; duplicate identifiers (documented panic) and l = 1 (rejected by Deal) are outside the domain; "
             "RSA public exponent is 65537 throughout (Shoup's scheme needs e prime and larger than l); concurrency of KeyShare.Sign belongs to C11; never establishes absence",
